@@ -59,7 +59,7 @@ func (w *World) Var(name string, epoch int) int {
 
 // Val is the number denoted by a comparison or case value: integer literals
 // (decimal, hex, negative) denote themselves; anything else is a symbol with
-// an injective (hash based, > 1000) value that does not depend on the world.
+// an injective (hash based, >= 0x10000) value that does not depend on the world.
 func Val(s string) int {
 	s = strings.TrimSpace(s)
 	// a parenthesised single value denotes the value
@@ -71,5 +71,22 @@ func Val(s string) int {
 	}
 	h := fnv.New64a()
 	h.Write([]byte(s))
-	return 1000 + int(h.Sum64()%1000000007)
+	return 0x10000 + int(h.Sum64()%1000000007)
+}
+
+// IsVarID reports whether a number is in the ranges the game's "compare"
+// command reads as a variable id rather than a raw value (manual: 0x4000..0x40FF
+// and 0x8000..0x8015); value(N) / compare_var_to_value force the raw reading.
+func IsVarID(n int) bool {
+	return (n >= 0x4000 && n <= 0x40FF) || (n >= 0x8000 && n <= 0x8015)
+}
+
+// CompareOperand is the number "compare VAR, text" compares with: the raw
+// value, or - for "compare" with a value in the var-id ranges - the content of that var.
+func (w *World) CompareOperand(text string, raw bool, epoch int) int {
+	n := Val(text)
+	if !raw && IsVarID(n) {
+		return w.Var(text, epoch)
+	}
+	return n
 }
